@@ -119,7 +119,7 @@ CHECKS['C17'] = dict(
 
 CHECKS['C19'] = dict(
     technique='TLA+ predicate for the class the Reconstructor supports (over the compiled rules) and the space-insertion law, evaluated by TLC on every real reconstruction; round trip parse(reconstruct(tree)) == tree judged inside the class',
-    text='For random EBNF grammars with all shaping features, whitespace ignored, string and regexp terminals (including ones that start with a non-identifier and end with an identifier character) and placeholders off, every parse tree of sampled inputs goes through the real Reconstructor; TLC decides from the compiled rules whether the parser is in the supported class (filtered terminals writable, every alternative keeps an unfiltered symbol other than the rule itself, no useless rules, unambiguous by strict LALR construction) and inside it judges that reconstruct does not raise, puts blanks exactly where two identifier characters meet, and that the text re-parses to an equal tree. An expression/call grammar is reconstructed statement by statement in every order by one Reconstructor instance (the matcher keeps state between trees).',
+    text='For random EBNF grammars with all shaping features, whitespace ignored, string and regexp terminals (including ones that start with a non-identifier and end with an identifier character) and placeholders off, every parse tree of sampled inputs goes through the real Reconstructor; TLC decides from the compiled rules whether the parser is in the supported class (filtered terminals writable, every alternative keeps an unfiltered symbol other than the rule itself, no useless rules, unambiguous by strict LALR construction) and inside it judges that reconstruct does not raise, puts blanks exactly where two identifier characters meet, and that the text re-parses to an equal tree. An expression/call grammar is reconstructed statement by statement in every order by one Reconstructor instance (the matcher keeps state between trees). Matcher.tla specifies the matching grammar of lark.tree_matcher; TLC proves on a catalogue of grammars that every node the parser can build (TreeBuilder.tla over CFG.tla derivations) is matched through root rules of its own rule, finds the two known gaps when their exemptions are removed, and compares the rules of every real TreeMatcher with the specification.',
     note='two known findings (?rule over an inlined repetition; alias shared by two rules)',
     ref='6/C19')
 
